@@ -24,6 +24,12 @@ def body(c, prop="C12", kinds='{"val", "del", "exp"}', nvks=(1,), invariants=("R
             if kinds.count(',') >= 3:
                 # retention is decided per key: with all four entry kinds the quick model check uses one key
                 consts.update(Keys="{1}", MaxTs=("3" if nvk == 1 else "4"), MaxId="6")
+        if not q and kinds.count(',') >= 3:
+            # thorough, all entry kinds: one key with four writes (retention is decided per key) and two keys
+            # with three writes
+            L.model_check(c, "picks NVK=%d, one key, 4 writes" % nvk, dict(consts, Keys="{1}", MaxTs="4", MaxId="7"), invariants, timeout=3000)
+            L.model_check(c, "picks NVK=%d, two keys, 3 writes" % nvk, dict(consts, MaxTs="3", MaxId="6"), invariants, timeout=3000)
+            continue
         if not q and kinds.count(',') == 2:
             # thorough, three kinds: the deep configuration with deletion markers only (expired entries are
             # treated exactly like them by addKeys), the shallower one with all three
